@@ -343,7 +343,13 @@ Definition run_fstep (e : env) (tk : ptoks) (f : fstep) (s : st) : option st :=
                end
   | FPathRemove => Some (with_path (remove_first_s (e_root e) (path s)) s)
   | FPathRestore => Some (with_path (t_saved_path tk) s)       (* sys.path[:] = saved_sys_path *)
-  | FUncapture => Some (if t_capture_started tk then uncapture s else s)
+  | FUncapture =>
+      if t_capture_started tk then
+        match get k_saved_showwarning s with
+        | None => None            (* the script deleted logging._warnings_showwarning: NameError *)
+        | Some _ => Some (uncapture s)
+        end
+      else Some s
   | FEndPatch k => end_patch (token_for k (t_begin tk)) s
   | FMetaRemove => if mem_n (e_hook e) (meta s)
                    then Some (with_meta (remove_first_n (e_hook e) (meta s)) s)
